@@ -62,7 +62,7 @@ class NumberField(Field):
                 "value is not a valid %s" % self.type_cls.__name__
             ) from err
 
-        if num != num:
+        if num != num and (self.min is not None or self.max is not None):
             # NaN compares false with every bound: it is not a number that satisfies any of them
             raise ValueError("value is not a valid %s" % self.type_cls.__name__)
 
